@@ -335,61 +335,82 @@ func (c *FailoverController) handleHealthEvent(event HealthEvent) {
 	switch event.Type {
 	case HealthEventPartnerDown:
 		// Partner is unhealthy - consider failover if we're standby
-		if c.currentRole == RoleStandby && c.state == FailoverStateNormal {
-			c.logger.Warn("Partner down detected, scheduling failover",
-				zap.Duration("delay", c.config.FailoverDelay),
-			)
-			c.state = FailoverStatePending
-			c.failoverTime = time.Now().Add(c.config.FailoverDelay)
-
-			// Set timer
-			if c.failoverTimer != nil {
-				c.failoverTimer.Stop()
-			}
-			c.timerGen++
-			gen := c.timerGen
-			c.failoverTimer = time.AfterFunc(c.config.FailoverDelay, func() {
-				c.executeFailover("partner health check failure", gen)
-			})
-		}
+		c.scheduleFailoverLocked()
 
 	case HealthEventPartnerUp:
 		// Partner is healthy again
 		if c.state == FailoverStatePending {
 			// Cancel pending failover
 			c.logger.Info("Partner recovered, canceling pending failover")
-			if c.failoverTimer != nil {
-				c.failoverTimer.Stop()
-			}
-			c.timerGen++
-			c.state = FailoverStateNormal
-			atomic.AddUint64(&c.failoversCanceled, 1)
-
-			c.notifyHandlers(FailoverEvent{
-				Type:      FailoverEventCanceled,
-				Timestamp: time.Now(),
-				OldRole:   c.currentRole,
-				NewRole:   c.currentRole,
-				Reason:    "partner recovered",
-			})
-		} else if c.state == FailoverStateComplete && c.config.FailbackEnabled {
-			// Consider failback
-			c.logger.Info("Partner recovered after failover, scheduling failback",
-				zap.Duration("delay", c.config.FailbackDelay),
-			)
-			c.state = FailoverStateFailbackPending
-			c.failbackTime = time.Now().Add(c.config.FailbackDelay)
-
-			if c.failbackTimer != nil {
-				c.failbackTimer.Stop()
-			}
-			c.timerGen++
-			gen := c.timerGen
-			c.failbackTimer = time.AfterFunc(c.config.FailbackDelay, func() {
-				c.executeFailback("partner recovered", gen)
-			})
+			c.cancelFailoverLocked("partner recovered")
+		} else {
+			c.scheduleFailbackLocked()
 		}
 	}
+}
+
+// scheduleFailoverLocked arms the failover timer if this node is a standby in normal
+// state. Caller must hold mu.
+func (c *FailoverController) scheduleFailoverLocked() {
+	if c.currentRole != RoleStandby || c.state != FailoverStateNormal {
+		return
+	}
+	c.logger.Warn("Partner down detected, scheduling failover",
+		zap.Duration("delay", c.config.FailoverDelay),
+	)
+	c.state = FailoverStatePending
+	c.failoverTime = time.Now().Add(c.config.FailoverDelay)
+
+	// Set timer
+	if c.failoverTimer != nil {
+		c.failoverTimer.Stop()
+	}
+	c.timerGen++
+	gen := c.timerGen
+	c.failoverTimer = time.AfterFunc(c.config.FailoverDelay, func() {
+		c.executeFailover("partner health check failure", gen)
+	})
+}
+
+// cancelFailoverLocked abandons a pending or in-progress automatic failover and returns
+// to normal state. Caller must hold mu.
+func (c *FailoverController) cancelFailoverLocked(reason string) {
+	if c.failoverTimer != nil {
+		c.failoverTimer.Stop()
+	}
+	c.timerGen++
+	c.state = FailoverStateNormal
+	atomic.AddUint64(&c.failoversCanceled, 1)
+
+	c.notifyHandlers(FailoverEvent{
+		Type:      FailoverEventCanceled,
+		Timestamp: time.Now(),
+		OldRole:   c.currentRole,
+		NewRole:   c.currentRole,
+		Reason:    reason,
+	})
+}
+
+// scheduleFailbackLocked arms the failback timer if a failover is complete and failback
+// is enabled. Caller must hold mu.
+func (c *FailoverController) scheduleFailbackLocked() {
+	if c.state != FailoverStateComplete || !c.config.FailbackEnabled {
+		return
+	}
+	c.logger.Info("Partner recovered after failover, scheduling failback",
+		zap.Duration("delay", c.config.FailbackDelay),
+	)
+	c.state = FailoverStateFailbackPending
+	c.failbackTime = time.Now().Add(c.config.FailbackDelay)
+
+	if c.failbackTimer != nil {
+		c.failbackTimer.Stop()
+	}
+	c.timerGen++
+	gen := c.timerGen
+	c.failbackTimer = time.AfterFunc(c.config.FailbackDelay, func() {
+		c.executeFailback("partner recovered", gen)
+	})
 }
 
 // evaluateState periodically evaluates the current state.
@@ -463,6 +484,14 @@ func (c *FailoverController) executeFailover(reason string, timerGen uint64) {
 			c.mu.Unlock()
 			return
 		}
+		// The health events are not the only way the partner's state changes (SetPartner,
+		// a recovery reported out of order): never promote against a healthy partner.
+		if c.healthMonitor.IsPartnerHealthy() {
+			c.logger.Info("Partner healthy when the failover delay expired, canceling failover")
+			c.cancelFailoverLocked("partner healthy")
+			c.mu.Unlock()
+			return
+		}
 		atomic.AddUint64(&c.failoversInitiated, 1)
 	} else if c.state != FailoverStateInProgress {
 		c.mu.Unlock()
@@ -488,6 +517,20 @@ func (c *FailoverController) executeFailover(reason string, timerGen uint64) {
 		time.Sleep(c.config.GracePeriod)
 	}
 
+	// A recovery reported while the state is in_progress is not acted on by
+	// handleHealthEvent: an automatic failover whose partner recovered during the grace
+	// period is cancelled here, before traffic is taken over.
+	if timerGen != 0 {
+		c.mu.Lock()
+		if c.healthMonitor.IsPartnerHealthy() {
+			c.logger.Info("Partner recovered during grace period, canceling failover")
+			c.cancelFailoverLocked("partner recovered")
+			c.mu.Unlock()
+			return
+		}
+		c.mu.Unlock()
+	}
+
 	// Call role change callback
 	if onRoleChange != nil {
 		if err := onRoleChange(newRole); err != nil {
@@ -505,6 +548,11 @@ func (c *FailoverController) executeFailover(reason string, timerGen uint64) {
 	c.currentRole = newRole
 	c.state = FailoverStateComplete
 	c.lastRoleChange = time.Now()
+	// The partner_up of a partner that recovered while the role-change callback ran was
+	// ignored (state in_progress): schedule the failback it would have scheduled.
+	if timerGen != 0 && c.healthMonitor.IsPartnerHealthy() {
+		c.scheduleFailbackLocked()
+	}
 	c.mu.Unlock()
 
 	atomic.AddUint64(&c.failoversCompleted, 1)
